@@ -28,9 +28,11 @@ abbrev Bytes := List Nat
 def isInvalidChar (c : Char) : Bool := Gen.pwdInvalidChars.contains c.toNat
 
 /-- `pwd_check`: raises `InvalidPassword` for more than 127 characters or for a character of
-`invalid_chars` (the raw string `r"?\""`, which holds `?`, a backslash and `"`). -/
+`invalid_chars` (the raw string `r"?\""`, which holds `?`, a backslash and `"`).  The code has no lower
+length bound today (`pwdMinLen` is generated as 0); the test is kept so that the model follows the
+source if one is added. -/
 def pwdCheck (p : Str) : Except Err Unit :=
-  if p.length > Gen.pwdMaxLen then .error .invalidPassword
+  if p.length > Gen.pwdMaxLen || p.length < Gen.pwdMinLen then .error .invalidPassword
   else if p.any isInvalidChar then .error .invalidPassword
   else .ok ()
 
@@ -137,8 +139,7 @@ def decPairs : Int → Str → Except Err Str
           | .ok r => .ok (Char.ofNat (m.toNat ^^^ k) :: r)
           | .error err => .error err
 
-/-- `CiscoPassword().decrypt_type_7(ep)` (instance built with the default `ep=""`, so
-`ep or self.ep` is `ep`) -/
+/-- `decrypt_type_7` after `ep = ep or self.ep` -/
 def decrypt7 (ep : Str) : Except Err Str :=
   if ep.length % 2 = 1 then .ok []                                 -- `if not (len(ep) & 1)`
   else
@@ -148,6 +149,9 @@ def decrypt7 (ep : Str) : Except Err Str :=
       match pyInt g1 with
       | none => .ok []                                             -- ValueError → (0, "") → no iteration
       | some s => decPairs s e
+
+/-- `CiscoPassword(selfEp).decrypt_type_7(ep)`: `ep or self.ep` -/
+def decryptType7 (selfEp ep : Str) : Except Err Str := decrypt7 (if ep.isEmpty then selfEp else ep)
 
 /-! ### base64 and the Cisco alphabet -/
 
